@@ -9,36 +9,35 @@ Units
 Both: exhaustive TLC (invariants + step properties), LTS tour on the real objects (model -> code), recorded random
 histories validated by TLC (code -> model).
 
-cfg files: .cfg exhaustive quick, .lts.cfg exported transition system (both tiers: the thorough tier only walks longer),
-.thorough.cfg exhaustive thorough, .trace.cfg trace validation.
+cfg files: .cfg exhaustive quick, .thorough.cfg exhaustive thorough, .trace.cfg trace validation; exported transition
+systems (both tiers, the thorough tier walks more): Backoff.lts.cfg; HealthTracker.ltsM.cfg (markers, every plan) and
+HealthTracker.ltsV.cfg (versions, every plan) - see the comment above LtsMStimuli in HealthTracker.tla.
 """
 from lib.units import SeqUnit
 
 
 class X1Unit(SeqUnit):
-    """SeqUnit whose exported transition system always comes from <M>.lts.cfg (the .thorough.cfg of these modules
-    selects the unthinned stimulus set, which is meant for the exhaustive run only)."""
+    """SeqUnit whose exported transition system always comes from the cfg kind given as lts_kind (the .thorough.cfg of
+    these modules selects the unthinned stimulus set, which is meant for the exhaustive run only; the thorough tier
+    walks the same transition systems with more and longer random walks)."""
 
     def run_lts(self, ctx, sd):
-        saved = ctx.thorough
+        saved, keep = ctx.thorough, self.walks
+        if saved:
+            self.walks = self.thorough_walks
         ctx.thorough = False
         try:
-            self.lts_kind = "lts"
-            walks, depth = self.thorough_walks if saved else self.walks
-            keep = self.walks
-            self.walks = (walks, depth)
-            try:
-                super().run_lts(ctx, sd)
-            finally:
-                self.walks = keep
+            super().run_lts(ctx, sd)
         finally:
-            ctx.thorough = saved
+            ctx.thorough, self.walks = saved, keep
 
 
 def units(ctx):
     return [
-        X1Unit("ext1", "HealthTracker", traces=(150, 80), thorough_traces=(1500, 120), walks=(300, 40),
+        X1Unit("ext1", "HealthTracker", lts_kind="ltsM", traces=(150, 80), thorough_traces=(1500, 120), walks=(300, 40),
                thorough_walks=(5000, 60)),
+        X1Unit("ext1", "HealthTracker", name="HealthTracker:versions", lts_kind="ltsV", do_mc=False, do_trace=False,
+               walks=(300, 40), thorough_walks=(5000, 60)),
         X1Unit("ext1", "Backoff", traces=(150, 40), thorough_traces=(1500, 60), walks=(200, 25),
                thorough_walks=(3000, 40)),
     ]
